@@ -247,14 +247,28 @@ void h_checkValueRange(void) {
 void h_readRawValue(void) {
   NDT t; SymbolString in; unsigned v;
   result_t r = NDT_readRawValue(&t, nondet_size(), nondet_size(), &in, &v);
-  if (r == RESULT_OK) { CANARY("decoded"); if (t.m_flags & BCD) { CANARY("decoded BCD"); } if (t.m_bitCount < 8) { CANARY("decoded bits"); } }
+  if (r == RESULT_OK) {
+    CANARY("decoded");
+#if !defined(CASE_BCD) || CASE_BCD == 1
+    if (t.m_flags & BCD) { CANARY("decoded BCD"); }
+#endif
+#if (!defined(CASE_BCD) || CASE_BCD == 0) && (!defined(CASE_LEN) || CASE_LEN == 1)
+    if (t.m_bitCount < 8) { CANARY("decoded bits"); }
+#endif
+  }
+#if !defined(CASE_BCD) || CASE_BCD == 1
   if (r == RESULT_ERR_OUT_OF_RANGE) { CANARY("invalid digit"); }
+#endif
   if (r == RESULT_ERR_INVALID_POS) { CANARY("short data"); }
 }
 void h_writeRawValue(void) {
   NDT t; SymbolString out; size_t used;
   result_t r = NDT_writeRawValue(&t, nondet_uint(), nondet_size(), nondet_size(), &out, nondet_bool() ? &used : NULL);
-  if (r == RESULT_OK) { CANARY("encoded"); if (t.m_bitCount < 8) { CANARY("encoded bits"); } } else { CANARY("rejected"); }
+  if (r == RESULT_OK) { CANARY("encoded"); }
+#if !defined(CASE_FLAGS) && (!defined(CASE_BCD) || CASE_BCD == 0) && (!defined(CASE_LEN) || CASE_LEN == 1)
+  if (r == RESULT_OK && t.m_bitCount < 8) { CANARY("encoded bits"); }
+  if (r != RESULT_OK) { CANARY("rejected"); }
+#endif
 }
 /* back end B2: the same pre/postconditions enforced by an assume/assert harness (DFCC did not finish, see DESIGN.md 4.4);
    the accessors are the real inline bodies of symbol.h over the vector model, not their contracts */
@@ -278,7 +292,11 @@ void h_writeRawValue_b2(void) {
   __CPROVER_assert(WR_POST_BYTE(2, old.m_data.n, old.m_data.d), "writeRawValue post: field byte 2");
   __CPROVER_assert(WR_POST_BYTE(3, old.m_data.n, old.m_data.d), "writeRawValue post: field byte 3");
   __CPROVER_assert(usedLength != NULL || used == used0, "writeRawValue frame: nothing else written");
-  if (r == RESULT_OK) { CANARY("encoded"); if (t.m_bitCount < 8) { CANARY("encoded bits"); } } else { CANARY("rejected"); }
+  if (r == RESULT_OK) { CANARY("encoded"); }
+#if !defined(CASE_FLAGS) && (!defined(CASE_BCD) || CASE_BCD == 0) && (!defined(CASE_LEN) || CASE_LEN == 1)
+  if (r == RESULT_OK && t.m_bitCount < 8) { CANARY("encoded bits"); }
+  if (r != RESULT_OK) { CANARY("rejected"); }
+#endif
 }
 void h_readRawValue_b2(void) {
   NDT t; SymbolString in, in0; unsigned v = nondet_uint(), v0;
